@@ -287,7 +287,15 @@ func PanicSite(stack string, pkgMarkers ...string) string {
 	if len(pkgMarkers) == 0 {
 		pkgMarkers = []string{"pluginsdk/atp.", "pluginsdk/schema.", "pluginsdk/plugin.", "main.", "codegen"}
 	}
-	for _, l := range strings.Split(stack, "\n") {
+	lines := strings.Split(stack, "\n")
+	// a stack taken inside a deferred recover: the panicking frames come after the "panic(" frame
+	for i, l := range lines {
+		if strings.HasPrefix(l, "panic(") {
+			lines = lines[i+1:]
+			break
+		}
+	}
+	for _, l := range lines {
 		l = strings.TrimSpace(l)
 		hit := false
 		for _, m := range pkgMarkers {
